@@ -38,9 +38,10 @@ const (
 	relEarlier   = "earlier-weight-same-moment"
 )
 
-// visited(k,m) tells whether the walk really went through moment m of occurrence k
-// (C08: always; C09: a cancelled transition skips its later moments).
-type visitedFunc func(k, m int) bool
+// visited(p) tells whether the walk really went through point p
+// (C08: always; C09: after a critical failure the rest of the pass, and for
+// before_/leave_ the rest of the transition, is skipped).
+type visitedFunc func(p envlab.Pos) bool
 
 func findAwait(occs []envlab.Occurrence, p envlab.Pos, aname string, aw int, visited visitedFunc) (envlab.Pos, bool) {
 	for k := p.K; k < len(occs); k++ {
@@ -58,7 +59,7 @@ func findAwait(occs []envlab.Occurrence, p envlab.Pos, aname string, aw int, vis
 		if c.Less(p) {
 			continue
 		}
-		if visited != nil && !visited(k, m) {
+		if visited != nil && !visited(c) {
 			continue
 		}
 		return c, true
